@@ -924,7 +924,8 @@ type pushClientAction struct {
 }
 
 type changePermissionsAction struct {
-	kind string
+	group string
+	kind  string
 }
 
 type permissionsChangedAction struct{}
@@ -1222,6 +1223,10 @@ func handleAction(c *webClient, a any) error {
 			}
 		}
 	case changePermissionsAction:
+		// the change was decided by an operator of a.group
+		if c.group == nil || c.group.Name() != a.group {
+			return nil
+		}
 		switch a.kind {
 		case "op":
 			c.permissions = addnew("op", c.permissions)
@@ -1917,7 +1922,7 @@ func handleClientMessage(c *webClient, m clientMessage) error {
 					"this is not a real user",
 				))
 			}
-			target.action(changePermissionsAction{m.Kind})
+			target.action(changePermissionsAction{g.Name(), m.Kind})
 		case "identify":
 			if !slices.Contains(c.permissions, "op") {
 				return c.error(group.UserError("not authorised"))
